@@ -5,7 +5,7 @@ package main
 
 func init() {
 	register("C01", "Decided: register / no-operand / condition-code / hand-written-form tables against the SDM, prefix predicates, mode configuration of every operand object, immediate width provenance, prefix independence from immediate magnitude, emission-time mode. Not decided: that form selection picks the right form for a concrete operand combination.",
-		ruleT1, ruleT2, ruleT3, ruleT5, ruleF8size, ruleP3, ruleF1, ruleF7, ruleE5, ruleI1)
+		ruleT1, ruleT2, ruleT3, ruleT5, ruleF8size, ruleP3, ruleF1, ruleF7, ruleE5, ruleI1, ruleI1s)
 	register("C02", "Decided: ModR/M and SIB tables, special cases, displacement thresholds, SIB presence, consumption of every parsed address component, operator handling in the operand grammar, 67h predicate, agreement of the pass-1 displacement/SIB sizing. Not decided: the path-sensitive composition of the calculator's branches.",
 		ruleT6, ruleQ2, ruleE8, ruleG2, ruleT1, ruleI1, ruleP3, ruleZ3, ruleF8size, ruleM2, ruleE3)
 	register("C03", "Decided: advance-iff-emit on every handler path, constant size rules vs emitter lengths, size-model terms and prefix predicates, data-directive lockstep, label/$ = LOC, pass-2 hand-over. Not decided: equality of the two size computations on every operand value.",
@@ -21,25 +21,25 @@ func init() {
 	register("C08", "Decided: record layouts and constants, capture-then-write ordering, symbol/aux counts, string table. Not decided: acceptance by an independent COFF reader.",
 		ruleT8, ruleP4)
 	register("C09", "Decided: same code in both formats, membership-tested symbol lists, stable name-blind ordering, inline-name threshold, bounded name copies.",
-		ruleE9, ruleSymSort, ruleS9c, ruleF4, ruleBoundedCopy, ruleT8)
+		ruleE9, ruleSymSort, ruleS9c, ruleF4, ruleBoundedCopy, ruleT8, ruleS15)
 	register("C10", "Decided: no post-init writes of package-level state, no map iteration / clock / random / environment / goroutines reachable from an assembly, truncating output, single image write. Third-party packages are trusted.",
 		ruleE1, ruleE1b, ruleE2, ruleE3, ruleP6)
 	register("C11", "Decided: the EQU clause stores the evaluated body under the identifier's own text and emits nothing; handlers get evaluated operands; lookups are re-evaluated at the use site. Not decided: equivalence with textual inlining for bodies containing `$`.",
 		ruleE10, ruleF3, ruleE3)
 	register("C12", "Decided: layout attributes of the extracted grammar. Not decided: language equivalence under re-layout.",
-		ruleT10Layout)
+		ruleT10Layout, ruleT10a)
 	register("C13", "Decided: explicit crash primitives reachable from the entry points; parser panic recovery. Not decided: implicit run-time panics and the complexity clause.",
-		ruleE6)
+		ruleE6, ruleD13)
 	register("C14", "Decided: emission-time context vs traversal-time writers, no package-level writes after init, append-only ocode list, unconditional forward emission loop.",
 		ruleE5, ruleE1, ruleE1b, ruleE3, ruleEmitLoop)
 	register("C15", "Decided: symbol keys are exact identifier text, tables are never iterated, symbol ordering ignores names.",
-		ruleF5, ruleE2, ruleSymSort, ruleU7)
+		ruleF5, ruleE2, ruleSymSort, ruleU7, ruleS15, ruleY16)
 	register("C16", "Decided: the origin chain from ORG to every address computation.",
-		ruleF6, ruleP5)
+		ruleF6, ruleP5, ruleY16, ruleBranch, ruleSetters)
 	register("C17", "Decided: default modes, BITS table, mode configuration of every operand object, emission-time mode vs traversal-time writer (known finding).",
-		ruleE5, ruleModeDefaults, ruleP3, ruleBranch)
+		ruleE5, ruleModeDefaults, ruleP3, ruleBranch, ruleSetters, ruleE3)
 	register("C18", "Decided: comparator orientation/order, sign-extendable set, canonical signed-8 tests, shared table query flags, hand-written short forms. Not decided: minimality for every operand combination.",
-		ruleF8c, ruleF8a, ruleI1, ruleT5)
+		ruleF8c, ruleF8a, ruleI1, ruleI1s, ruleT5)
 	register("C19", "Decided: exit-code table, open flags, no failing exit after a successful write. Not decided: the Shift_JIS / UTF-8 decoding clause.",
 		ruleT9, ruleP6)
 }
